@@ -77,3 +77,10 @@ prop("C18", lambda t, s: [("mc", "ConcurrencyMc", "McConc"), ("mc_broken", "Conc
                           ("drive", "histrand", n(t, 600, 30000)), ("conc", n(t, 6, 150))],
      exhaustive_note="McConc enumerates every interleaving of 3 goroutines x 2 calls (Begin/End steps) over 2 shared and 2 private packet values; McHist every call history of up to 3 (thorough: 4) calls out of 9 operations on 13 packet values; real schedules are sampled under the race detector",
      assumptions=["the Go race detector reports only the races that occur in the sampled schedules"])
+
+# vacuity guard: the least number of distinct behaviours each configuration must emit for replay
+MIN_BEHAVIOURS = {"McWire": 900, "McFaults": 3000, "McFaults2": 20000, "McLimits": 80, "McVariants": 250, "McForeign": 800, "McDispatch": 3000,
+                  "McDispatchAll": 30000, "McDgram": 600, "McDgram3": 10000, "McCompound": 2000, "McCompound4": 30000, "McNack": 5000,
+                  "McNackThorough": 15000, "McTwcc": 7000, "McTwccThorough": 50000, "McRemb": 1100, "McRembThorough": 5000, "McWireRemb": 100,
+                  "McXr": 300, "McXrThorough": 4000, "McWireXr": 180, "McUnits": 200, "McUnitsThorough": 1500, "McWireUnits": 250,
+                  "McHist": 3000, "McHist4": 20000}
